@@ -56,7 +56,7 @@ def c01_9(cx):
     cx.flow(wd, stv[0][2], [r"^Option::Some\{0: \$2\}$"], [r"Option::None"], "with_durability records Some(durability)", stv[0][0])
 
 
-@ob("C01.10", ["C01", "C07", "C06"], "a recreated tracked struct whose changed field keeps its old revision (or whose identity fields are only partly overwritten) serves old data to readers", kind="MUSTCALL+ONLYIF (expanded macros)")
+@ob("C01.10", ["C01", "C07", "C06"], also=["C02", "C03"], nec="a recreated tracked struct whose changed field keeps its old revision (or whose identity fields are only partly overwritten) serves old data to readers", kind="MUSTCALL+ONLYIF (expanded macros)")
 @needs_specimen
 def c01_10(cx):
     """Generated update_fields: update_field(&mut old.k, new.k, eq_k) is executed for EVERY field on every path (no short-circuit); for tracked field k with relative index r, revisions[r].store(current_revision) happens iff that call returned true; the result is the OR of the identity fields' results; update_field replaces and returns true iff !eq; tracked_struct allocate/update stamp new_revisions(current_deps.changed_at) and current_deps.durability."""
@@ -121,6 +121,7 @@ def c01_10(cx):
     up = cx.fn(r"^tracked_struct::IngredientImpl::<C>::update$")
     ufc = cx.one_call(up, r"^tracked_struct::Configuration::update_fields$", "update_fields call")
     cx.flow(up, cx.arg(ufc, 0), [r"^\$4\.changed_at$"], [r"^const:", r"current_revision"], "changed fields are stamped with the creator's changed_at", ufc)
+    cx._only = {"C01", "C02"}
     dst = cx.stores(up, r"\.durability$")
     cx.sites(dst, 1, "durability store in update")
     cx.flow(up, dst[0][2], [r"^\$4\.durability$"], [r"^const:"], "the struct's durability follows the creator", dst[0][0])
@@ -136,6 +137,7 @@ def c01_10(cx):
     it = [c for c in up.calls(r"^std::iter::IntoIterator::into_iter$")]
     cx.require(it, "reset loop")
     cx.skipped_only_if(up, it[-1], ge, "the revision reset is skipped only if the durability did not decrease", exits=exits)
+    cx._only = None
 
 
 @ob("C13.3", ["C13", "C12", "C14"], "a function declared with cycle_result that is iterated (or one without cycle handling that is not treated as Panic) follows the wrong cycle protocol", kind="TABLE (expanded macros)")
